@@ -57,6 +57,13 @@ func worldGen(tape *simrt.Tape, tier, focus string) *worldCase {
 		}
 	}
 	c.TLS = tape.Bool(1, 24, "tls")
+	if focus == "c05" {
+		// TLS and TLS-with-client-certificate server instances next to the plain ones
+		if tape.Bool(1, 8, "tls-more") {
+			c.TLS = true
+		}
+		c.ClientCerts = c.TLS && tape.Bool(1, 2, "tls-client-certs")
+	}
 	c.RefClient = tape.Bool(1, 2, "refclient")
 	c.RefServer = tape.Bool(1, 2, "refserver")
 	c.MaxServers = uint(tape.Range(1, 3, "maxservers"))
@@ -226,12 +233,12 @@ func worldBody(tape *simrt.Tape, o simwork.Opts, res *simwork.Result, focus stri
 	}
 	w := &world{cs: cs, sim: sim, dir: worldDir, clients: map[string]*simClient{}, byPort: map[uint32]*worldServer{},
 		fbWritten: map[string]bool{}, logP: &recPrinter{}, errP: &recPrinter{}}
-	configFile, suiteFile, err := w.files()
+	configFile, suiteFiles, err := w.files()
 	if err != nil {
 		res.Invalid = append(res.Invalid, "world files: "+err.Error())
 		return
 	}
-	flags := w.flags(configFile, suiteFile)
+	flags := w.flags(configFile, suiteFiles)
 
 	// the selected set, computed with the library's own expansion (C07/C08 are assumed here)
 	cfgData, _ := os.ReadFile(configFile)
@@ -240,8 +247,11 @@ func worldBody(tape *simrt.Tape, o simwork.Opts, res *simwork.Result, focus stri
 		res.Invalid = append(res.Invalid, "parseConfig: "+err.Error())
 		return
 	}
-	suiteData, _ := os.ReadFile(suiteFile)
-	suites, err := parseTestSuites(map[string][]byte{suiteFile: suiteData})
+	suiteDatas := map[string][]byte{}
+	for _, f := range suiteFiles {
+		suiteDatas[f], _ = os.ReadFile(f)
+	}
+	suites, err := parseTestSuites(suiteDatas)
 	if err != nil {
 		res.Invalid = append(res.Invalid, "parseTestSuites: "+err.Error())
 		return
@@ -310,20 +320,55 @@ func worldBody(tape *simrt.Tape, o simwork.Opts, res *simwork.Result, focus stri
 		doneAt   time.Duration
 	)
 	sim.Goal = func() bool { return returned }
+	clientTrouble := func() bool {
+		if cs.ClientFault != "none" {
+			return true
+		}
+		for _, c := range w.clients {
+			if len(c.faultFired) > 0 {
+				return true
+			}
+		}
+		return false
+	}
 	sim.Invariant = func() string {
 		// servers that are up and have not been asked to stop yet (a server whose
 		// context is cancelled is being terminated and no longer counts)
 		live := 0
 		for _, s := range w.servers {
-			if s.started && !s.exited && s.ctx != nil && s.ctx.Err() == nil {
-				live++
+			if !s.started || s.exited {
+				continue
 			}
+			// A server that is being killed on an error path (it misbehaved, or the
+			// client died and the whole run is torn down) is not waited for by the
+			// runner and is not counted; a well-behaved server that was asked to
+			// stop at the end of its batch occupies its slot until it has exited.
+			if s.ctx != nil && s.ctx.Err() != nil && (len(s.fired) > 0 || clientTrouble()) {
+				continue
+			}
+			// the runner gives a server gracefulShutdownPeriod to end after asking
+			// it to stop; after that it is abandoned (a real process is killed)
+			if s.ctx != nil && s.ctx.Err() != nil {
+				if !s.stopSeen {
+					s.stopSeen, s.stopSeenAt = true, sim.Elapsed()
+				}
+				if sim.Elapsed()-s.stopSeenAt >= gracefulShutdownPeriod {
+					continue
+				}
+			}
+			live++
 		}
 		if live > w.maxLive {
 			w.maxLive = live
 		}
 		if live > int(cs.MaxServers) {
-			return fmt.Sprintf("%d server processes running at once, --max-servers is %d", live, cs.MaxServers)
+			var desc []string
+			for _, s := range w.servers {
+				if s.started && !s.exited {
+					desc = append(desc, fmt.Sprintf("#%d %s started at %s asked-to-stop=%v faults=%v", s.id, s.slot, s.startedAt, s.ctx != nil && s.ctx.Err() != nil, len(s.fired) > 0))
+				}
+			}
+			return fmt.Sprintf("%d server processes running at once at %s, --max-servers is %d (%s)", live, sim.Elapsed(), cs.MaxServers, strings.Join(desc, "; "))
 		}
 		return ""
 	}
